@@ -3,6 +3,11 @@
 # kind: rapid (default) | exhaustive | plain
 # quick/thorough: checks = total rapid cases over all shards; shards = processes; timeout = seconds per shard
 PARTS = {
+    "C14": [
+        {"test": "TestVfC14Shutdown", "replay_runs": 20,
+         "quick": {"checks": 12000, "shards": 4, "timeout": 900, "gomaxprocs": [16, 2, 16, 4]},
+         "thorough": {"checks": 600000, "shards": 16, "timeout": 3000, "gomaxprocs": [16, 2, 1, 4]}},
+    ],
     "C12": [
         {"test": "FuzzVfC12", "kind": "fuzz",
          "quick": {"shards": 1, "timeout": 300},
@@ -139,6 +144,16 @@ RULES = {
            "object graph, and from the connection manager's protections (configuration such as the direct-peer set and the blacklist "
            "exempt). Non-trivial: an RPC after the outbound close, streams closed in another order than opened, or a validation that may "
            "outlive the connection. Distinct = case JSON.",
+    "C14": "direct-driven node of each router (gossipsub with scoring and gater; with or without a discovery service; 2 real connector "
+           "goroutines, automatic heartbeats, a slow validator with 0-4 remote messages in validation) under 1-4 concurrent caller "
+           "goroutines issuing 1-10 calls each of 23 APIs (join, subscribe, Next, cancel, publish, publish-with-readiness, batch, relay, "
+           "validator (un)registration, event handler / NextPeerEvent / cancel, ListPeers, GetTopics, blacklist, direct peers, score "
+           "params, feedback, topic close), some repeated back to back, or a polling storm (goroutines hammering one API 10-150 times); "
+           "the constructor's context is cancelled before the k-th call, at a virtual instant, or by a separate goroutine after a "
+           "generated number of yields; after shutdown each API is called again 1, 2, 3 or 40 times in a row. Oracle: 60 virtual seconds "
+           "later every call has returned, no call panicked, no mutex reachable from the PubSub / Topic / Subscription / handler "
+           "objects is left locked at quiescence, and when the case ends the bubble has no blocked goroutine left. Non-trivial: at "
+           "least one call was in progress at the instant of cancellation. Distinct = case JSON.",
     "C03": "direct-driven floodsub node under each signature policy (StrictSign, StrictNoSign, LaxSign, LaxNoSign) x author mode (default, "
            "custom author with key in the peerstore, anonymous); 1-12 messages per case: honestly signed messages of three remote authors "
            "(two ed25519 with extractable key, one ECDSA with attached key) forwarded by the author or another peer and hit by 0-3 of 20 "
@@ -268,6 +283,10 @@ RULES = {
 ASSUMPTIONS = {
     "C12": ["framing (oversized, truncated, zero-length frames on a real stream) is exercised by the network-level part, not here",
             "native fuzzing cannot be pinned to a seed; the saved input is the reproducible unit"],
+    "C14": ["direct-drive replaces comm.go's per-stream goroutines by the harness, so their termination is not covered here",
+            "inside a synctest bubble a goroutine waiting for a sync.Mutex freezes the virtual clock, so callers of Topic.Close / SetScoreParams are serialised against the other calls on the same handle by the harness (on channels) and the real mutex is probed with TryLock instead; a frozen bubble is reported as inconclusive (exit 2), never as a violation",
+            "calls that wait by contract on the caller's context (Next, NextPeerEvent, Publish with readiness) get a 150 ms caller deadline",
+            "which goroutine wins a race is up to the Go scheduler: a schedule-dependent violation is found with a probability per run, and its replay file is re-run 20 times"],
     "C13": ["the stub host refuses new streams, so the node's own reopening attempts after a stream reset fail; at most one such attempt is pending per peer, as in the real flow",
             "retention wait: 3 virtual minutes, 12 when the dead-peer back-off table was used (its entries live 10 min + 1 min clean-up)"],
     "C19": ["refused pushes are not observable at the queue, so DROP_RPC events are only checked for not shadowing a SEND (a refused push that is also traced as sent is caught, a refused push traced as nothing is not)"],
@@ -310,6 +329,15 @@ META = {
                 "retention and state created after the disconnect.",
         "note": "Direct-drive bypasses comm.go; the reflection walk follows only this module's types. One open known finding (gater entry created by a late validation verdict) is excused by its own key.",
         "technique": "stateful property-based testing (rapid) with absence oracle incl. reflection walk of the object graph",
+    },
+    "C14": {
+        "text": "Property-based testing over concurrent API workloads x cancellation points (by call count, by virtual instant, by a racing "
+                "goroutine) x post-shutdown call counts inside a synctest bubble, whose quiescence detection decides 'returns' and "
+                "'every goroutine exits'; a reflection walk with TryLock decides 'no lock left held'. Finds unconditional channel "
+                "sends / receives towards loops that have exited, replies abandoned by one side, locks kept on early returns, panics "
+                "on the way down.",
+        "note": "Schedule-dependent violations are found probabilistically (generated polling storms raise the rate); comm.go's stream goroutines are outside the direct-drive harness.",
+        "technique": "property-based testing (rapid) of concurrent workloads with generated cancellation points; synctest quiescence + lock-probe oracle",
     },
     "C03": {
         "text": "Property-based testing with mutation-style input generation (tamper and recombine honest messages) against an independent "
